@@ -14,6 +14,8 @@ SCHEMAS = {
     "plain": ["create table t1(a int, b int)", "create table t2(a int, c int)", "create table t3(a int, d varchar)"],
     # keyed: primary key on t1.a, BIGINT join key on t2 (different integer widths)
     "keyed": ["create table t1(a int primary key, b int)", "create table t2(a bigint, c int)", "create table t3(a int, d varchar)"],
+    # pkpk: both join sides are stored in key order on disk (merge join / sort aggregation become eligible)
+    "pkpk": ["create table t1(a int primary key, b int)", "create table t2(a int primary key, c int)", "create table t3(a int, d varchar)"],
 }
 
 T1 = {
@@ -36,6 +38,12 @@ T2 = {
     "nul": [(None, 1), (None, None)],
     "mix": [(1, 1), (2, None), (None, 3), (1, 2), (3, 0)],
 }
+T2_KEYED = {
+    "e": [],
+    "low": [(0, 1), (1, None), (2, 3)],            # right side ends before the left side
+    "high": [(2, 2), (5, None), (7, 0), (9, 1)],   # right side outlives the left side
+    "mix": [(1, 1), (3, None), (4, 3), (6, 2)],
+}
 T3 = [(1, "x"), (2, None), (None, "y"), (2, "x")]
 
 
@@ -45,9 +53,12 @@ def databases(tier):
     out = []
     for schema in SCHEMAS:
         t1s = T1 if schema == "plain" else T1_KEYED
+        t2s = T2_KEYED if schema == "pkpk" else T2
         for n1, r1 in t1s.items():
-            for n2, r2 in T2.items():
+            for n2, r2 in t2s.items():
                 if tier == "quick" and schema == "keyed" and not (n1 in ("mix", "dup") and n2 in ("mix", "nul", "e")):
+                    continue
+                if tier == "quick" and schema == "pkpk" and n1 not in ("mix", "dup", "e"):
                     continue
                 out.append((f"{schema}:{n1}:{n2}", schema, {"t1": r1, "t2": r2, "t3": T3}))
     return out
@@ -185,6 +196,14 @@ def queries(tier):
         out.append(q(f"select t1.a, t2.c from t1 {jt} t2 on t1.a = t2.a order by t1.a, t2.c limit 2", okeys=[(0, False), (1, False)], feat=["join:" + jt.split()[0], "order", "limit"], level=2))
         out.append(q(f"select distinct t1.a from t1 {jt} t2 on t1.a = t2.a", feat=["join:" + jt.split()[0], "distinct"], level=2))
         out.append(q(f"select x.a, t2.c from t1 x {jt} t2 on x.a = t2.a where x.a = 1", feat=["join:" + jt.split()[0], "alias"], level=2))
+    # joins of ordered inputs (merge join becomes eligible on every engine)
+    for jt in JOIN_TYPES:
+        out.append(q(f"select x.a, x.b, y.a, y.c from (select a, b from t1 order by a) x {jt} (select a, c from t2 order by a) y on x.a = y.a",
+                     feat=["join-ordered:" + jt.split()[0]], level=2))
+        out.append(q(f"select x.a, y.c from (select a, b from t1 where b > 0 order by a) x {jt} (select a, c from t2 order by a) y on x.a = y.a where y.c is null or x.a > 1",
+                     feat=["join-ordered:" + jt.split()[0]], level=2))
+    out.append(q("select a, count(*), sum(b) from (select a, b from t1 order by a) s group by a", feat=["sortagg"], level=2))
+    out.append(q("select a, b, count(*) from (select a, b from t1 order by a, b) s group by a, b", feat=["sortagg"], level=2))
     # self join
     out.append(q("select x.a, y.b from t1 x join t1 y on x.a = y.b", feat=["selfjoin"], level=2))
     out.append(q("select x.a, y.a from t1 x left join t1 y on x.b = y.a and y.b > 0", feat=["selfjoin"], level=2))
